@@ -5,7 +5,7 @@
     (Gen/StreamConsts.v, Gen/HelloConsts.v). *)
 From Coq Require Import List NArith Bool.
 From Verif Require Import Lib.Bytes Sni.Wire Sni.Hello Sni.HelloProofs Sni.Stream Sni.StreamProofs
-  Sni.StreamClose Sni.ReadBuf Sni.ReadBufProofs Sni.StreamGen Gen.StreamConsts Gen.HelloConsts Gen.WireSchema Sni.WireGen.
+  Sni.StreamClose Sni.ReadBuf Sni.ReadBufProofs Sni.SideRead Sni.SideReadProofs Sni.StreamGen Gen.StreamConsts Gen.HelloConsts Gen.WireSchema Sni.WireGen.
 Import ListNotations.
 Local Open Scope N_scope.
 
@@ -237,6 +237,45 @@ Proof.
 Qed.
 Print Assumptions C01_later_reads_need_the_close.
 
+(** ** sideConn.Read across message boundaries (side modes, both directions)
+
+    Messages arrive as fragments: several per message, fragments and whole
+    messages of zero length, and a connection that is lost in the middle of a
+    message.  From every state of the curReader machine, with any non-empty
+    buffer and any behaviour of the message reader: a Read returns the next
+    bytes that have arrived (at least one, at most the buffer), or the end
+    marker only when nothing before it is owed, or an error only after
+    everything that had arrived was delivered (with it or before it), or it
+    would block only when everything that arrived has been delivered. *)
+Theorem C01_side_read_fragments : forall m ks s got e s' ks',
+  0 < m -> side_read_f m ks s = (got, e, s', ks') -> read_post_f m (owed_f s) got e s'.
+Proof. exact side_read_f_spec. Qed.
+Print Assumptions C01_side_read_fragments.
+
+(** Any sequence of buffer sizes over any sequence of such messages: what the
+    Reads returned - including bytes returned together with an error - is
+    what had arrived, in order, nothing lost, repeated or inserted. *)
+Theorem C01_side_reads_fragments : forall ms ks s outs e s',
+  Forall (fun m => 0 < m) ms ->
+  side_reads_f ms ks s = (outs, e, s') ->
+  concat outs ++ (match e with RNil => owed_f s' | _ => [] end) = owed_f s.
+Proof. exact side_reads_f_spec. Qed.
+Print Assumptions C01_side_reads_fragments.
+
+(** A close in the middle of a message is never taken for the end of the
+    stream: while the cut message is being read the result is data or an
+    error, never io.EOF and never a block; once its fragments are exhausted
+    every Read fails. *)
+Theorem C01_cut_message_is_an_error : forall m q ks frs got e s' ks',
+  0 < m ->
+  (sr_loop q m ks frs false = (got, e, s', ks') -> e = RNil \/ e = RErrS) /\
+  side_read_f m ks (mkR (Some ([], false)) q) = ([], RErrS, mkR (Some ([], false)) q, tl ks).
+Proof.
+  exact (fun m q ks frs got e s' ks' Hm =>
+           conj (cut_never_eof m q ks frs got e s' ks' Hm) (cut_is_sticky m ks q)).
+Qed.
+Print Assumptions C01_cut_message_is_an_error.
+
 (** ** Whose bytes a read reply carries (multiplexed tunnel, application -> client)
 
     Each read RPC is served by its own goroutine of the endpoint: obtain a
@@ -289,6 +328,19 @@ Qed.
 Print Assumptions C01_source_tie.
 
 (** * Non-vacuity *)
+
+(** An empty message, a message of three fragments with empty ones between
+    them, an empty message, then a message of which two fragments arrive
+    before the connection is lost, read with buffers of 2, 3, 100, 1 bytes:
+    every byte that arrived, in order, then an error - and again an error. *)
+Example C01_nonvacuous_fragments :
+  let script := [ GBin [] true; GBin [[1; 2]; []; [3]; []; [4; 5; 6]] true; GBin [[]] true;
+                  GBin [[7; 8]; [9]] false; GBin [[99]] true ] in
+  let '(outs, e, s') := side_reads_f [2; 3; 100; 1; 5; 5; 5; 5] [] (mkR None script) in
+  outs = [[1; 2]; [3]; [4; 5; 6]; [7]; [8]; [9]; []] /\ e = RErrS /\
+  fst (fst (fst (side_read_f 4096 [] s'))) = [] /\ snd (fst (fst (side_read_f 4096 [] s'))) = RErrS /\
+  owed_f (mkR None script) = [1; 2; 3; 4; 5; 6; 7; 8; 9].
+Proof. vm_compute. repeat split. Qed.
 
 (** Three read calls in flight with a fresh buffer each, steps interleaved:
     every reply is its own call's data; the same schedule with a pooled buffer
